@@ -73,7 +73,7 @@ FUNCS = {
 }
 
 BUILTINS = {
-    "len": dict(ret="fresh"), "range": dict(ret="fresh"), "sum": dict(ret="fresh"), "min": dict(ret="elem0"),
+    "len": dict(ret="fresh"), "range": dict(ret="fresh"), "slice": dict(ret="fresh", tag="sliceobj"), "sum": dict(ret="fresh"), "min": dict(ret="elem0"),
     "max": dict(ret="elem0"), "abs": dict(ret="fresh"), "int": dict(ret="fresh"), "float": dict(ret="fresh"),
     "str": dict(ret="fresh"), "bool": dict(ret="fresh"), "isinstance": dict(ret="fresh"),
     "issubclass": dict(ret="fresh"), "callable": dict(ret="fresh"), "hasattr": dict(ret="fresh"),
